@@ -153,6 +153,7 @@ class JobSchedulerDrv(Drv):
 
 
 class WorkStealingPoolDrv(Drv):
+    contention = True
     family = "scheduling"
     covers = ("WorkStealingPool",)
     ops = ("task", "task_long")
